@@ -5,8 +5,8 @@ import pktgen, scen
 
 class Prop(PropBase):
     pid = 'C01'
-    kernels = []
-    vo_targets = ['Props/Properties_C01.vo', 'Proofs/Conservation.vo', 'Proofs/Slots.vo', 'Proofs/Stream.vo']
+    kernels = ['fx_splitFrame']
+    vo_targets = ['Props/Properties_C01.vo', 'Proofs/Conservation.vo', 'Proofs/Slots.vo', 'Proofs/Stream.vo', 'Proofs/Handover.vo']
     prop_files = ['Props/Properties_C01.v']
     rule = ('structured DIFOP/MSOP streams for all 17 LidarTypes with malformed packets (wrong length +-1/2/6, wrong id bit, foreign, empty, 1-2 byte, random), '
             'bad block ids, late DIFOP, all split modes, NaN points kept; compared: per cloud and for the open frame the sequence of (valid, intensity, ring); '
